@@ -9,8 +9,8 @@ META = {
     "technique": "Rocq proof over a hand-written Gallina model of crates/oxidd-ffi-c (every modelled oxidd_{bdd,bcdd,zbdd}_* entry point as a transition with the Rust-side reference effects of the wrapper code and the documented C-side ownership effect); correspondence: the static library built from the working tree is driven through its C symbols and mirrored call by call on the Rust API in a second manager, the extracted model replays the call list",
     "category": "proof",
     "design_ref": "DESIGN.md section 5, C19",
-    "level_text": "Theorems (coq/Props/C19.v, checked by coqc on every run, Print Assumptions audited): for every sequence of documented-legal calls the bag of live Rust Function values / the manager's strong count equal what the client's ledger owns (ledger_balanced), the wrapper code never drops a dead value or touches a destroyed manager (no_ub), an INVALID operand yields INVALID and changes nothing, every constructor/operation returns exactly one owned reference and borrows its operands, ref/unref change the count of exactly that function by one, the table of a returned handle is the spec-layer (DD/Sem.v) result on the operands' tables (ffi_equiv), and when every handle is released nothing is referenced any more; with exact counts and a completed collection (C05) the unique tables are then empty. Tie to the code: liboxidd_ffi_c.a is rebuilt from /repo's working tree on every run; enumerated ownership probes (every function-valued entry point x every validity pattern of its operands x ref/unref/gc placements, all three kinds) and random call sequences (every third one on a manager too small for the work, so that out-of-memory INVALID handles occur) run on the C symbols and on the Rust API; compared per call: validity, value tables through oxidd_*_eval on all assignments (vs. the Rust mirror and vs. the extracted model), raw-handle identity, scalar results, DDDMP files byte for byte, inner-node counts after every collection and after releasing everything (0, or the ZBDD manager's own tautology chain), and the lifetime of the manager's collector thread.",
-    "level_note": "Trusted: Coq kernel, extraction, OCaml driver, Rust harness (hand-written extern declarations of the C symbols), rustc/linker. The ledger model is hand-written; memory safety of the raw-pointer conversions (into_raw/from_raw) is represented only by the reference bookkeeping. Not modelled / not driven: visualize* (network), print_stats, multiple managers in one sequence, set_var_order with a proper subset of the variables, C-level undefined behaviour (double unref etc. lies outside the documented-legal sequences). Node counts are compared with the Rust mirror, not derived from the model. Variable names go through the encoding functions of the model only (the name map itself is C16). eval with fewer arguments than variables is excluded as undocumented (BDD/BCDD eval reads unassigned variables as true although the comment says false; C and Rust API agree on it).",
+    "level_text": "Theorems (coq/Props/C19.v, checked by coqc on every run, Print Assumptions audited): for every sequence of documented-legal calls the bag of live Rust Function values / the manager's strong count equal what the client's ledger owns (ledger_balanced), the wrapper code never drops a dead value or touches a destroyed manager (no_ub), an INVALID operand yields INVALID and changes nothing, every constructor/operation returns exactly one owned reference and borrows its operands, ref/unref change the count of exactly that function by one, the table of a returned handle is the spec-layer (DD/Sem.v) result on the operands' tables (ffi_equiv), and when every handle is released nothing is referenced any more; with exact counts and a completed collection (C05) the unique tables are then empty. Tie to the code: liboxidd_ffi_c.a is rebuilt from /repo's working tree on every run; enumerated ownership probes (every function-valued entry point x every validity pattern of its operands x ref/unref/gc placements, all three kinds) random call sequences (every third one on a manager too small for the work, so that out-of-memory INVALID handles occur) and twin sequences on several managers driven by one thread run on the C symbols and on the Rust API; compared per call: validity, value tables through oxidd_*_eval on all assignments (vs. the Rust mirror and vs. the extracted model), raw-handle identity, scalar results, DDDMP files byte for byte, inner-node counts after every collection and after releasing everything (0, or the ZBDD manager's own tautology chain), and the lifetime of the manager's collector thread.",
+    "level_note": "Trusted: Coq kernel, extraction, OCaml driver, Rust harness (hand-written extern declarations of the C symbols), rustc/linker. The ledger model is hand-written; memory safety of the raw-pointer conversions (into_raw/from_raw) is represented only by the reference bookkeeping. Not modelled / not driven: visualize* (network), print_stats, handles of different managers in one call, set_var_order with a proper subset of the variables, C-level undefined behaviour (double unref etc. lies outside the documented-legal sequences). Node counts are compared with the Rust mirror, not derived from the model. Variable names go through the encoding functions of the model only (the name map itself is C16). eval with fewer arguments than variables is excluded as undocumented (BDD/BCDD eval reads unassigned variables as true although the comment says false; C and Rust API agree on it).",
 }
 
 ALLOWED_AXIOMS = ()
@@ -132,7 +132,7 @@ def run(ctx):
     shutil.rmtree(os.path.join(ctx.workdir, "tmp"), ignore_errors=True)
     vf.write_evidence(
         ctx, "proof",
-        rule="per kind (bdd, bcdd, zbdd): enumerated ownership probes = every function-valued entry point (connectives, not, ite, cofactor(s), pick_cube_dd(_set), restrict, forall/exists/unique, apply_forall/exists/unique x 3 operators, substitute (object / NULL), ZBDD subset0/subset1/change/union/intsec/diff/make_node, ref, DDDMP export+import, DDDMP export (array / names / iterators), DOT dump) x every subset of its operands replaced by the INVALID handle x 3 placements of ref/unref/gc/manager-handle release (incl. a non-default variable order), constructor cases with named variables; random call sequences of 20..90 (thorough: ..160) calls, 60 (thorough: 1500) per kind, over 2..6 variables, every third one on a manager of 2..20 nodes (out-of-memory INVALID handles), every seventh with 2 worker threads. non-trivial = case with >= 6 calls; distinct = distinct (header, call list)",
+        rule="per kind (bdd, bcdd, zbdd): enumerated ownership probes = every function-valued entry point (connectives, not, ite, cofactor(s), pick_cube_dd(_set), restrict, forall/exists/unique, apply_forall/exists/unique x 3 operators, substitute (object / NULL), ZBDD subset0/subset1/change/union/intsec/diff/make_node, ref, DDDMP export+import, DDDMP export (array / names / iterators), DOT dump) x every subset of its operands replaced by the INVALID handle x 3 placements of ref/unref/gc/manager-handle release (incl. a non-default variable order), constructor cases with named variables; random call sequences of 20..90 (thorough: ..160) calls, 60 (thorough: 1500) per kind, over 2..6 variables, every third one on a manager of 2..20 nodes (out-of-memory INVALID handles), every seventh with 2 worker threads; twin cases: 2-3 managers of the same kind on one thread with the same variable count and nearly identical, query-heavy call sequences (sat_count, sat_count_double, pick_cube, eval, level / name queries), sequential or interleaved, 36 (thorough: 300) per kind. non-trivial = case with >= 6 calls; distinct = distinct (header, call list)",
         checker_cmd="make -C coq Props/C19.vo (coqc 8.16.1) + Print Assumptions audit; ./check C19",
         extra_cov={"cases_ok": ok, "cases_bad": len(bad), "tier": ctx.tier},
         assumptions=["the C symbols are declared by hand in harness_ffi/src/inc/ffi_decl.rs from the Rust signatures (no generated header offline)",
